@@ -48,7 +48,23 @@ def inputs(chk, n_gen, profiles=None):
         if f.endswith(".sc"):
             files.append((os.path.join(gdir, f), None))
     files += [(f, None) for f in wide_types(chk)]
+    files += [(f, None) for f in shape_programs(chk)]
     return files
+
+
+def shape_programs(chk, only=None):
+    """deterministic shape families (gen/gen_shapes.py): binder-carrying operands, duplicated arguments /
+    self-application, multi-destructor print-free programs, pointer-first environments, nested generic types"""
+    sdir = os.path.join(WORK, "shapes_%s" % chk.id)
+    subprocess.run(["rm", "-rf", sdir])
+    subprocess.run(["python3", os.path.join(common.VERIF, "gen", "gen_shapes.py"), sdir], check=True, capture_output=True)
+    fs = sorted(os.path.join(sdir, f) for f in os.listdir(sdir) if f.endswith(".sc"))
+    if only:
+        fs = [f for f in fs if os.path.basename(f).split("_")[0] in only]
+    if chk.tier == "quick":
+        opnd = [f for f in fs if os.path.basename(f).startswith("opnd_")]
+        fs = [f for f in fs if not os.path.basename(f).startswith("opnd_")] + opnd[:: (2 if chk.id in ("C03", "C02") else 4)]
+    return fs
 
 
 def wide_types(chk):
